@@ -167,6 +167,10 @@ func TestC16Store(t *testing.T) {
 		// hot key set with adversarial neighbours
 		var hot [][]byte
 		nHot := rapid.IntRange(4, 40).Draw(t, "hotN")
+		tiny := rapid.IntRange(0, 3).Draw(t, "tiny") == 0 // tiny states: proofs are 2-3 nodes long, most of the tree is behind sibling stubs
+		if tiny {
+			nHot = rapid.IntRange(2, 4).Draw(t, "hotNtiny")
+		}
 		for len(hot) < nHot {
 			switch rapid.IntRange(0, 3).Draw(t, "kind") {
 			case 0, 1:
@@ -183,6 +187,9 @@ func TestC16Store(t *testing.T) {
 		nv := rapid.IntRange(1, 4).Draw(t, "versions")
 		for b := 0; b < nv; b++ {
 			n := rapid.IntRange(1, 40).Draw(t, "n")
+			if tiny {
+				n = rapid.IntRange(1, 3).Draw(t, "ntiny")
+			}
 			for i := 0; i < n; i++ {
 				k := hot[rapid.IntRange(0, len(hot)-1).Draw(t, "k")]
 				if rapid.IntRange(0, 9).Draw(t, "op") < 7 {
@@ -223,6 +230,7 @@ func TestC16Store(t *testing.T) {
 			}
 		}()
 		ec.Desc("versions=%d entries=%d", nv, len(model))
+		ec.ClassIf(tiny, "tiny-state")
 		nontrivial := false
 		statements := rapid.IntRange(3, 10).Draw(t, "statements")
 		for si := 0; si < statements; si++ {
@@ -274,6 +282,9 @@ func TestC16Store(t *testing.T) {
 			}
 			// --- cross-offer: the honest proof of another key / an inner node on this key's path, offered for this key
 			other := hot[rapid.IntRange(0, len(hot)-1).Draw(t, "other")]
+			if rapid.Bool().Draw(t, "otherFar") {
+				other = pool.Keys[rapid.IntRange(0, len(pool.Keys)-1).Draw(t, "otherAny")] // a key anywhere in the tree (mostly absent)
+			}
 			oproof, err := ver.ro.(*store.Store).GetProof(bytes.Clone(other))
 			if err != nil {
 				t.Fatalf("GetProof(other): %v", err)
